@@ -162,7 +162,7 @@ def run(facts, rep, ctx):
     # ---- R01.4 -------------------------------------------------------------------------------
     if w["label_push_order"] == ["address", "offset"] and r["label_read_order"] == ["address", "offset"]:
         rep.ok(R4, {"label_record": "address, name offset"})
-    elif len(w["label_push_order"]) != 2 or len(r["label_read_order"]) != 2 or "?" in r["label_read_order"]:
+    elif len(w["label_push_order"]) != 2 or len(r["label_read_order"]) != 2 or "?" in r["label_read_order"] or "?" in w["label_push_order"]:
         rep.inconc(R4, "label record: writer pushes %s, reader interprets %s (two words expected on each side)" % (w["label_push_order"], r["label_read_order"]))
     else:
         rep.violation(R4, rd.name, "label-record", "writer pushes %s, reader interprets %s" % (w["label_push_order"], r["label_read_order"]), "%s:%s" % (rd.file, rd.line))
@@ -319,7 +319,7 @@ def writer_model(facts, rep, R1, ser):
     if m["ptr_section"] and m["ptr_section"][0] == "local" and "origin_bb" in m:
         reach = nv.reachable_blocks(m["origin_bb"])
         for bb, sh, args, t in mutations_of(nv, m["ptr_section"][1]):
-            if sh in ("push", "extend", "insert", "append") and bb in reach:
+            if sh in ("push", "extend", "insert", "append", "extend_from_slice", "resize") and bb in reach:
                 m["ptr_incomplete_at_origin"] = True
     # every other section whose length enters the origin must be complete when the origin is taken
     m["incomplete_sections"] = []
@@ -340,7 +340,11 @@ def writer_model(facts, rep, R1, ser):
             v = args[1]
             is_off = any(x[0] == "call" and x[2] and root_of(x[2][0]) == intern_target for x in walk(norm(v))) or \
                 any(x[0] == "local" and any(y[0] == "call" and y[2] and root_of(y[2][0]) == intern_target for y in walk(norm(nv.definition(x[1])))) for x in walk(v) if x[0] == "local" and len(nv.defs().get(x[1], [])) == 1)
-            order.append("offset" if is_off else "address")
+            # an address is (a cast of) the key of the label map entry being visited: the item of the loop's next()
+            full = nv.definition(v[1]) if v[0] == "local" and len(nv.defs().get(v[1], [])) == 1 else v
+            is_addr = any(x[0] == "call" and x[1].endswith("Iterator>::next") or (x[0] == "local" and nv.local_name(x[1]) and nv.local_ty(x[1]).startswith("&usize"))
+                          for x in walk(full)) and not any(x[0] == "call" and x[1].rsplit("::", 1)[-1] in ("len", "get", "insert", "entry") for x in walk(full))
+            order.append("offset" if is_off else ("address" if is_addr else "?"))
     m["label_push_order"] = order
     return m
 
